@@ -456,16 +456,7 @@ func (i If) byteCode(srcsel int, fl flags.Pass, cr compResult) bytecode.Type {
 
 	jmpfAddr := condition(i.Condition, true, 0, fl.Data().Pass(), cr)
 
-	tcSize := len(*cr.CS)
 	tcInstr := i.TrueCase.byteCode(0, fl.Data().Pass(flags.WithDiscard(discard)), cr)
-	tcSize = len(*cr.CS) - tcSize
-
-	if tcSize == 0 && discard {
-		// if true case produced no code ie, single immediate like
-		// if false 1 and we are discarding, then we don't even need the if
-		*cr.CS = (*cr.CS)[:len(*cr.CS)-1]
-		return bytecode.EncodeSrc(srcsel, tcInstr.Src0(), tcInstr.Src0Addr())
-	}
 
 	dest := bytecode.EncodeSrc(srcsel, tcInstr.Src0(), tcInstr.Src0Addr())
 	if tcInstr.Src0() != bytecode.AddrStck && tcInstr.Src0() != bytecode.AddrInv && !discard && !returning {
